@@ -87,6 +87,13 @@ META = {
                         "values with complement(complement(x)) are not constructible through Location.Complement() and are outside the round-trip claim",
                         "known findings K1 (pinned by TestLocationReduction) and K4 (Join not idempotent around an absorbed between-site)"],
     },
+    "C19": {
+        "sections": ["Arith.rangeCompare", "Arith.rangeWithin", "Arith.rangeOverlap"],
+        "rule": "12 features (3 keys x 4 qualifier sets incl. repeated names and multi-valued qualifiers) x ~600 selector strings assembled from keys, names and 12 patterns of a regexp fragment (literals, ^, $, ., escaped '/', one invalid), plus escape corner cases; all pairs of 11 atomic filters under And/Or/Not; Within/Overlap on the shape family x windows; Filter on the table; all insertion sequences of <=3 (a quarter of those of 4) features from a 10-feature pool; LocationLess on a grid of the family incl. transitivity triples. Oracle: an independent Go reading of the selector grammar using the real regexp package; residue reading of Within/Overlap; sortedness after Insert.",
+        "assumptions": ["regexp is a parameter of the theorems; the correspondence instantiates it with a matcher for the generated fragment only",
+                        "Or() with no arguments is TrueFilter (pinned by TestFeatureFilter) and Props entries are non-empty: outside the claims",
+                        "Overlap with an empty window and zero-length sites follow the span reading, not the residue reading (documented in DESIGN.md)"],
+    },
 }
 
 
